@@ -40,6 +40,7 @@ RULE_TEXT = (
     'contains a rename/delete and a relation points at or from the touched '
     'model; distinct = mutation kinds + relation topology digest.')
 RULE_TEXT += ' Half of the app_label scenarios have a bystander app whose label starts with the renamed label; kind "pk_rename" (1 in 16): a primary key that models of both apps point at is renamed and the referencing tables are rebuilt afterwards, stepwise or in one run.'
+RULE_TEXT += ' Kind "label_reuse" (1 in 16): a label freed by one RenameAppLabel is taken by the other app in the next release.'
 ASSUMPTIONS = [
     'a relation to an explicitly deleted model may dangle (the property '
     'exempts it); the generator deletes referrers first',
@@ -59,6 +60,8 @@ def generate(seed, index, tier):
         return gen_app_label(rng)
     if index % 16 == 5:
         return gen_pk_rename(rng)
+    if index % 16 == 13:
+        return gen_label_reuse(rng)
     cfg = gen.swarm_config(rng)
     cfg['relations'] = True
     cfg['m2m'] = rng.random() < 0.5
@@ -193,6 +196,99 @@ def gen_pk_rename(rng):
             'keep_column': keep_column, 'raw_sql': raw_sql}
 
 
+def gen_label_reuse(rng):
+    """An app label is freed by one rename and taken by another app in the
+    next release: va -> newa (legacy label va), then vb -> va.  Lookups by
+    app id must prefer the app that really has that id over one that merely
+    had it once."""
+    intf = lambda n: {'name': n, 'kind': 'Integer', 'attrs': {'null': True}}
+    same_name = rng.random() < 0.6
+    va0 = [{'name': 'Item', 'fields': [intf('a')], 'meta': {}}]
+    vb0 = [{'name': 'Item' if same_name else 'Node', 'fields': [
+        intf('n'), {'name': 'link', 'kind': 'ForeignKey',
+                    'attrs': {'null': True}, 'to': 'va.Item'}], 'meta': {}}]
+    vbname = vb0[0]['name']
+    # (a further mutation of the relabelled app in the same release is not
+    # generated: the unchanged tree cannot resolve it - observation, see
+    # DESIGN 8.2)
+    project = {'apps': {
+        'va': {'v0': va0, 'labels': ['va', 'newa', 'newa'], 'steps': [
+            {'evos': [{'label': 'relabel_a', 'mutations': [
+                {'op': 'RenameAppLabel', 'old': 'va', 'new': 'newa',
+                 'legacy': 'va'}]}]}, {'evos': []}]},
+        'vb': {'v0': vb0, 'labels': ['vb', 'vb', 'va'], 'steps': [
+            {'evos': []},
+            {'evos': [{'label': 'relabel_b', 'mutations': [
+                {'op': 'RenameAppLabel', 'old': 'vb', 'new': 'va',
+                 'legacy': 'vb'}]}]}]}},
+        'order': rng.choice([['va', 'vb'], ['vb', 'va']]),
+        'databases': ['default']}
+    return {'kind': 'label_reuse', 'project': project,
+            'rows': {'va_item': [{'id': 1, 'a': 1}]}}
+
+
+def _exec_label_reuse(scn):
+    P = scn['project']
+    sts = proj.states(P)
+    stats, viols = {'kind_label_reuse': 1}, []
+    tags = ['RenameAppLabel', 'RenameAppLabel']
+    detail = dict(kind='label_reuse', order=P['order'], ops=tags,
+                  ops_str=' '.join(tags), model_name_reuse=False,
+                  renamed_name_in_other_app=False)
+    res = {'violations': viols, 'stats': stats, 'nontrivial': True,
+           'shape': spec.canon(['label_reuse', P['order'], tags,
+                                P['apps']['vb']['v0'][0]['name']]),
+           'runs': 0}
+    with runner.Workspace() as ws:
+        r0 = common.install(ws, P, sts, 0, scn['rows'])
+        if r0.status != 'ok' or getattr(r0, 'rows_rejected', None):
+            raise runner.HarnessError('label_reuse install: %s' % r0.status)
+        for v in (1, 2):
+            proj.deploy(ws, P, v, sts, clean=True)
+            r = ws.run('evolve', {'execute': True})
+            if r.status != 'ok':
+                viols.append(violation(
+                    'C11.valid_rename_rejected', version=v,
+                    out=(r.stdout() + r.stderr() + str(
+                        (r.exit or {}).get('msg')))[-400:], **detail))
+                res['runs'] = ws.nruns
+                return res
+        post = snapshot.snapshot(ws)
+        res['runs'] = ws.nruns
+    apps = c03.stored_apps(post) or {}
+    for want in ('newa', 'va'):
+        if want not in apps:
+            viols.append(violation('C11.dangling_related_model',
+                                   when='stored', missing_app=want,
+                                   apps=sorted(apps), **detail))
+    for a, asig in apps.items():
+        for mn, msig in (asig.get('models') or {}).items():
+            for fn, fsig in (msig.get('fields') or {}).items():
+                rel = fsig.get('related_model')
+                if not rel:
+                    continue
+                ra, rm = rel.split('.', 1)
+                if ra not in apps or rm not in (
+                        apps[ra].get('models') or {}):
+                    viols.append(violation(
+                        'C11.dangling_related_model', when='stored',
+                        refs=[[a, mn, fn, rel]], **detail))
+                elif fn == 'link' and rel != 'newa.Item':
+                    viols.append(violation(
+                        'C11.dangling_related_model', when='stored',
+                        wrong_target=[[a, mn, fn, rel]], **detail))
+    for t, ts in post['tables'].items():
+        for (col, rt, rc) in ts['fks']:
+            if rt not in post['tables']:
+                viols.append(violation('C11.fk_target_missing', table=t,
+                                       column=col, target=rt, **detail))
+    if post['fk_check']:
+        viols.append(violation('C11.fk_check', rows=[
+            list(map(str, x)) for x in post['fk_check'][:4]], **detail))
+    res['sample'] = dict(detail)
+    return res
+
+
 def _exec_pk_rename(scn):
     P = scn['project']
     sts = proj.states(P)
@@ -271,6 +367,8 @@ def relation_topology(state):
 def execute(scn):
     if scn['kind'] == 'pk_rename':
         return _exec_pk_rename(scn)
+    if scn['kind'] == 'label_reuse':
+        return _exec_label_reuse(scn)
     P = scn['project']
     sts = proj.states(P)
     stats, viols = {}, []
